@@ -5,7 +5,7 @@ PROP = dict(
     lean_module="AbraProofs.Properties.C14",
     required_theorems=["C14_patCompare_correct", "C14_patBind_correct", "C14_let_destructuring",
                        "C14_match_takes_first_pass", "C14_match_selects_first_partial", "C14_d27_regression",
-                       "C14_let_accepted_binds"],
+                       "C14_let_accepted_binds", "C14_let_binds_first_combination", "C14_d103_regression"],
     harness_bin="c14",
     mismatch_is_violation=True,
     rule="(scrutinee type, accepted arm list, value) triples over the universe of C12 (harness/src/patuniv.rs): 420 (quick) / "
@@ -17,7 +17,7 @@ PROP = dict(
          "emitted code run on the model VM; spec oracle: Rust reference (first matching arm, bindings of the first matching "
          "alternative); the shapes of the repaired defects D27, D31, D46, D47 are unconditionally in the main stream and their original inputs (incl. the "
          "compile hang, in a child process with a time limit, re-run alone before a timeout counts) are hard regression checks: a wrong output is a spec failure; "
-         "coverage-guided additions: a struct without fields (also as payload and tuple component), a generic enum with named fields, single-variant enums; 220 (quick) / 4000 irrefutable let / annotated let / var / for / let-in-function patterns with variant, named-variant and or sub-patterns, bound values compared with the model (pc let) and with the reference (first matching alternative); hard regression programs D97, B15, A09; non-trivial = the arm taken is not arm 0, or something is bound, or an or-pattern occurs",
+         "coverage-guided additions: a struct without fields (also as payload and tuple component), a generic enum with named fields, single-variant enums; 220 (quick) / 4000 irrefutable let / annotated let / var / for / let-in-function patterns with variant, named-variant and or sub-patterns, bound values compared with the model (pc let) and with the reference (first matching alternative); hard regression programs D97, D103, B15, A09; non-trivial = the arm taken is not arm 0, or something is bound, or an or-pattern occurs",
     nontrivial=lambda req, imp: not imp.startswith("arm=0 leak=0") or "=" in imp.split("leak=0", 1)[-1] or " or " in req,
     trusted_base=COMMON_TB + [
         "the VM's instruction semantics for the 18 instructions the pattern code uses (Abra.PatCompile.step), the run-time representation of values (repr) and forward-jump resolution are modelled, not proved against vm.rs; the tie observes arm index, bound values and stack balance, not the instruction stream",
@@ -34,7 +34,8 @@ PROP = dict(
                "of every kind, type, value, decision set and stack, the comparison code replaces the value by Bool(matches) of the selected "
                "alternative and touches nothing else (also when a product fails midway); the binding code consumes exactly the value and stores "
                "every variable's component (match arms, let, for); the whole match, as the code is, enters the body of the first pass whose selected "
-               "alternative matches and binds through it, stack restored (C14_match_takes_first_pass); for arm lists whose arms are or-chains "
+               "alternative matches and binds through it, stack restored (C14_match_takes_first_pass); `let` / `var` / `for` (bind_irrefutable_pat after D103) bind under the first combination that matches "
+               "(C14_let_binds_first_combination), which for a pattern the checker accepts and whose or-patterns form a chain is exactly what the pattern binds as a match arm, for every value (C14_let_accepted_binds); for arm lists whose arms are or-chains "
                "`a | b | c` of or-free alternatives (incl. arms without or-patterns) that is the first matching arm in source order, bound through "
                "its first matching alternative. Tied to /repo on every run: real programs report arm, bindings and "
                "stack balance, compared with the model and with a Rust reference.",
